@@ -301,6 +301,18 @@ def run_case(case):
     else:
         y = make_input(rng, inp, shape, cplx, info,
                        alpha if np.ndim(alpha) == 0 else 1.0)
+    if case["pseed"] % 7 == 0 and np.ndim(alpha) == 0:
+        alpha = pick(rng, [1, 1.0])                 # unit step: a natural special case
+    if case["pseed"] % 3 == 0:
+        # history: the first use of this prox object is on REAL data of the same shape
+        nev = len(STATE.events)
+        try:
+            P(float(np.ndim(alpha) == 0 and alpha or 0.7),
+              np.ascontiguousarray(np.real(y)).astype(np.float64) * 0.9 + 0.05)
+        except Exception:
+            # real data meeting complex parameters is rejected loudly by numpy's casting rule
+            # (e.g. L2Reg with a complex bias): not a question of optimality - forget it
+            del STATE.events[nev:]
     if case.get("single") and "Psd" not in cls:
         y = y.astype(np.complex64 if np.iscomplexobj(y) else np.float32)
     if case.get("npscalar") and np.ndim(alpha) == 0:
@@ -319,6 +331,7 @@ def run_case(case):
             P, type(inn).__name__, str(inn)[:200]), wit, mech="raised:" + cls)
     if not np.array_equal(y, y0):
         return violated(sig, "input modified", wit, mech="mutated")
+    x_kept = x.copy() if isinstance(x, np.ndarray) else None
     # idempotence of projections / feasible point is returned unchanged
     checks = 1
     if info["k"] in ("l2ball", "linf", "l1ball", "box", "psd") and isinstance(x, np.ndarray) \
@@ -359,6 +372,10 @@ def run_case(case):
             return violated(sig, "second/third call on the same prox object raised %s: %s" % (
                 type(inn).__name__, str(inn)[:200]), wit, mech="raised:" + cls)
         checks += 2
+        if x_kept is not None and not np.array_equal(x, x_kept):
+            return violated(sig, "the array returned by the first call was overwritten by a "
+                            "later call on the same prox object (results share storage)", wit,
+                            mech="history-alias:" + cls)
         if x3.shape != x.shape or not np.array_equal(x3, x):
             return violated(sig, "the same prox object gives a different result for the same "
                             "(alpha, input) after an intervening call with other arguments "
